@@ -21,7 +21,7 @@ RULE = ('roundtrip units: cookie names from the token alphabet x plain values (t
         'position x {16 substitution symbols, deletion, truncation} in quoted and unquoted transport form, plus swaps / length changes / '
         'other secret / other name. Non-trivial = a signed cookie, or a plain value needing quoting; distinct = distinct Cookie header.')
 PYOPT = {'quick': 1, 'thorough': 1}     # one unit of every kind is also served by an interpreter started with -O (assert statements compiled out)
-REQUIRED = ['units_run_under_python_-O', 'tampered_header_put_on_a_request_that_had_read_the_genuine_one', 'cookie_on_a_response_without_body(204/304)', 'set_after_earlier_cookie_operations', 'emitted_by_a_copied_response', 'plain_roundtrips', 'signed_roundtrips', 'quoted_values', 'tamper_reads', 'tamper_substitution', 'tamper_deletion',
+REQUIRED = ['units_run_under_python_-O', 'cookie_on_a_raised_response_over_one_of_the_application_response', 'tampered_header_put_on_a_request_that_had_read_the_genuine_one', 'cookie_on_a_response_without_body(204/304)', 'set_after_earlier_cookie_operations', 'emitted_by_a_copied_response', 'plain_roundtrips', 'signed_roundtrips', 'quoted_values', 'tamper_reads', 'tamper_substitution', 'tamper_deletion',
             'tamper_truncation', 'tamper_swap', 'tamper_other_secret', 'tamper_other_name', 'unpickler_calls_observed', 'read_as_absent',
             'via_wsgi', 'unquoted_form', 'among_other_cookies']
 ASSUMPTIONS = ['cookie names are RFC 6265 tokens accepted by http.cookies; values are non-empty and at most 4096 characters',
@@ -32,7 +32,7 @@ SUBST = list('Aa0+/=!?"\\;, \0') + ['%', 'Z']
 SUBST_FULL = [chr(c) for c in range(32, 127)] + ['\0', '\t', '\x7f', '\xe9']      # every printable ASCII symbol and a few others
 NAMES = ['s', 'session', 'a', 'id_1', 'X-y', 'tok.en', 'n~m', 'k!', 'UPPER', 'a1b2']
 SECRETS = ['k', 'secret', 'sé crèt', '日本', 'with space', 'a' * 64, '!?', '0', '\U0001f511key', 'p@ss;word']
-PLAIN = ['v', 'hello', 'a b', 'a;b', 'a,b', 'a=b', '"quoted"', 'back\\slash', 'tab\there', 'new\nline', 'cr\rlf', 'é', 'ÿ', 'naïve café',
+PLAIN = ['/search?q=caf%C3%A9&page=2', '/wiki/%E4%BD%A0%E5%A5%BD', 'name%2Cdate', '100%25', '%', '%%', '%zz', '%41', 'a%20b', '%e9', 'v', 'hello', 'a b', 'a;b', 'a,b', 'a=b', '"quoted"', 'back\\slash', 'tab\there', 'new\nline', 'cr\rlf', 'é', 'ÿ', 'naïve café',
          'ß=ü;ö', '\x7f', '\x01', ' lead', 'trail ', '!notsigned?x', '!?', '?', 'a"b', "it's", '100%', 'x' * 300, '\\', '\\"', '0',
          'Ã©', '€', '日本', 'ключ', '\U0001f600', 'mixé日']
 OBJECTS = [1, 'text', None, True, 3.5, ('a', 1), ['l', ['nested', {'k': (1, 2)}]], {'user': 'é', 'roles': ['a', 'b'], 'n': 10**20},
@@ -143,6 +143,14 @@ def roundtrip_unit(ctx, unit):
 
     @app.route('/set')
     def h_set():
+        if cur['prior'] == 'raised_over_a_cookie_of_the_response':
+            # an earlier cookie of that name sits on the application's response (a hook's anonymous session, say);
+            # the handler answers by raising a response that carries the cookie under test: that one is sent
+            from ombott import HTTPResponse
+            app.response.set_cookie(cur['name'], 'stale value of the response', path='/')
+            out = HTTPResponse('set', cur['status'])
+            out.set_cookie(cur['name'], cur['value'], secret=cur['secret'], path='/', httponly=True)
+            raise out
         apply_prior(app.response, cur['prior'], cur['name'])
         app.response.set_cookie(cur['name'], cur['value'], secret=cur['secret'], path='/', httponly=True)
         if cur['prior'] == 'failed_reset_after':
@@ -172,6 +180,9 @@ def roundtrip_unit(ctx, unit):
                 value = rng.choice(PLAIN)[:20] + rng.choice(PLAIN)[:20]
         mode = rng.choice(['object', 'object', 'wsgi'])
         prior = rng.choice(PRIORS)
+        if mode == 'wsgi' and rng.random() < 0.25:
+            prior = 'raised_over_a_cookie_of_the_response'
+            ctx.count('cookie_on_a_raised_response_over_one_of_the_application_response')
         status = rng.choice(STATUSES)
         if status in (204, 304):
             ctx.count('cookie_on_a_response_without_body(204/304)')
